@@ -19,7 +19,7 @@ structure Flags where
   dflt : Bool := false
   whenTrue : Bool := false
   new : Bool := false
-  deriving Repr, BEq, DecidableEq, Inhabited
+  deriving Repr, DecidableEq, Inhabited
 
 def Flags.toNat (f : Flags) : Nat := (if f.dflt then 1 else 0) + (if f.whenTrue then 2 else 0) + (if f.new then 4 else 0)
 def Flags.ofNat (n : Nat) : Flags := { dflt := n % 2 == 1, whenTrue := n / 2 % 2 == 1, new := n / 4 % 2 == 1 }
